@@ -13,7 +13,7 @@ From Coq Require Import ZArith List Bool Lia ZifyBool Btauto.
 From HV Require Import Prelude.Py Prelude.State Prelude.Utf8 Prelude.PyExtra.
 From HV Require Gen.GData Gen.GInt Gen.GTable Gen.GHuff.
 From HV Require Model.Data Model.Int Model.Table Model.HuffEnc Model.HuffDec Model.Decoder Model.Encoder.
-From HV Require Proofs.Int.
+From HV Require Proofs.Int Bridge.BridgeSim.
 From HV Require Export Bridge.BridgeTac.
 From HV Require Export Bridge.B_consts Bridge.B_decode_integer Bridge.B_encode_integer Bridge.B_table_entry_size
   Bridge.B_HeaderTable_add Bridge.B_HeaderTable_get_by_index Bridge.B_HeaderTable_search
@@ -43,6 +43,7 @@ Global Opaque GInt.decode_integer GInt.encode_integer GTable.table_entry_size GT
     or the positions compose: what is known of the Prelude functions and of the integer codec is made
     available to the case analysis.
     - [encode_integer] never returns an empty bytearray, and [x[0] |= m] (m an octet) cannot fail on one;
+      [x[0] |= 0] leaves it as it is (a mask held in a variable that is 0x00 on one path, 0x80 on the other);
     - [decode_integer] returns a value >= 0 and a count >= 1;
     - [l[a:][b:] = l[a+b:]] for a, b >= 0. *)
 Lemma slice_from_nonneg {A} (l : list A) a : 0 <= a ->
@@ -80,6 +81,9 @@ Proof.
 Qed.
 Lemma or_first_cons_ok b r m : 0 <= m < 256 -> exists b', or_first (b :: r) m = Ok (b' :: r).
 Proof. intros Hm. destruct (zb_lor_byte b m Hm) as [b' E]. exists b'. cbn [or_first]. rewrite E. reflexivity. Qed.
+(** [x[0] |= 0]: or-ing an empty mask leaves the octet as it is (a flag variable that is 0x00 on one path) *)
+Lemma or_first_cons_zero b r : or_first (b :: r) 0 = Ok (b :: r).
+Proof. cbn [or_first]. rewrite Z.lor_0_r, BridgeSim.zb_bz_. reflexivity. Qed.
 
 Lemma encode_integer_cons n N p : Int.encode_integer n N = Ok p -> exists b r, p = b :: r.
 Proof.
@@ -126,6 +130,7 @@ Ltac facts :=
       end
   end;
   repeat match goal with
+  | |- context [or_first (?b :: ?r) 0] => rewrite (or_first_cons_zero b r)
   | |- context [or_first (?b :: ?r) ?m] =>
       znum m;
       lazymatch goal with
@@ -146,7 +151,7 @@ Ltac leaf :=
           ?b_INDEX_NONE, ?b_INDEX_NEVER, ?b_INDEX_INCREMENTAL.
 
 Ltac expose :=
-  cbv beta iota zeta delta [bind mbind sbind nbind catch Encoder.lift_tab fst snd map_ctl map_lres
+  cbv beta iota zeta delta [bind mbind sbind nbind catch Encoder.lift_tab fst snd map_ctl map_lres obs_ctl
                             Decoder.h_name Decoder.h_value Decoder.h_class]; unfold_tperms.
 
 (* the generic steps (zcong, break_match with scrutinee synchronisation, tidy, ...) are in Bridge/BridgeTac.v *)
@@ -156,12 +161,17 @@ Ltac leaf_hyps :=
 
 Ltac finish :=
   units; tidy; leaf_hyps;
-  solve [ reflexivity | congruence | (exfalso; len_facts; lia) | (exfalso; congruence) | zcong ].
+  solve [ reflexivity | congruence | (exfalso; len_facts; lia) | (exfalso; congruence) | zcong
+        | (* truthiness of an int spelt [if n:] on one side, [if n != 0:] on the other: the two tests were
+             analysed separately, the impossible combinations are closed here *)
+          (exfalso; unfold truthy in *; len_facts; lia) ].
 
 (** [crush_with callees] ([callees]: a tactic that rewrites with the bridges of the definitions called, where it
     can): every goal must be closed, the first stuck one stops everything; loops are identified as in
     BridgeTac.v ([loop_sync]: same state, or a permutation of it).  [crush_show] leaves the stuck goals. *)
-Ltac cstep self := first [ loop_sync ltac:(self) | break_match | loop_destruct | range_split ].
+(* [loop_obs] after [break_match]: it is only needed when [loop_sync] has failed, and looking for loops in every goal of
+   the case analysis of a body is not free *)
+Ltac cstep self := first [ loop_sync ltac:(self) | break_match | loop_obs ltac:(leaf) ltac:(self) | loop_destruct | range_split ].
 Ltac crush_with callees :=
   expose; callees; leaf; facts; first [ finish | (cstep ltac:(crush_with callees); crush_with callees) ].
 Ltac crush := crush_with idtac.
